@@ -289,4 +289,6 @@ def replay(case):
 
 def check_witness(w):
     ids, bad = _eval(w)
-    return {'match': not bad and sorted(ids) == sorted(w['expect']), 'got': ids, 'bad': bad[:2]}
+    # a witness compares the prediction of the symbolic run with the real code; whether the property holds on it is the business of
+    # the claims (the extractor's duplicate ids are a known finding and still a correct prediction)
+    return {'match': sorted(ids) == sorted(w['expect']), 'got': ids, 'bad': bad[:2]}
